@@ -35,6 +35,8 @@ Chars(chunk) ==
     [] chunk = "false" -> <<"f", "a", "l", "s", "e">>
     [] chunk = "null" -> <<"n", "u", "l", "l">>
     [] chunk = "big" -> <<"9", "2", "2", "3", "3", "7", "2", "0", "3", "6", "8", "5", "4", "7", "7", "5", "8", "0">>
+    [] chunk = "e20" -> <<"1", "0", "0", "0", "0", "0", "0", "0", "0", "0", "0", "0", "0", "0", "0", "0", "0", "0", "0", "0", "0">>        \* 10^20: 21 digits
+    [] chunk = "e21" -> <<"1", "0", "0", "0", "0", "0", "0", "0", "0", "0", "0", "0", "0", "0", "0", "0", "0", "0", "0", "0", "0", "0">>   \* 10^21: 22 digits
     [] chunk = "str" -> <<"\"", "a", "\"">>
     [] chunk = "q" -> <<"\"">>
     [] chunk = "bs" -> <<"\\">>
